@@ -798,4 +798,136 @@ func streamOps(c *ctx) {
 			}
 		}
 	}
+	opsTwoKeyAndDerived(c)
+}
+
+// opsTwoKeyAndDerived: (a) the second key of a two-key operation: the remote public key handed to ECDHer.ECDH is bound by
+// its own key_ops like any key (whatever ecdh.CheckKey refuses in it, ECDH refuses); (b) public keys derived from a
+// restricted private key carry only public-side operations: verify for the signature families, none for ECDH.
+func opsTwoKeyAndDerived(c *ctx) {
+	fail := func(what, in string, obs, exp any) {
+		c.fail(failure{Op: "key_ops", What: what, Input: short(in), Observed: short(fmt.Sprint(obs)), Expected: short(fmt.Sprint(exp)), Case: short(in)})
+	}
+	for _, crv := range []int{1, 2, 3, 4} {
+		own, e1 := ecdh.GenerateKey(crv)
+		rk, e2 := ecdh.GenerateKey(crv)
+		if e1 != nil || e2 != nil {
+			continue
+		}
+		rp, e3 := ecdh.ToPublicKey(rk)
+		ea, e4 := ecdh.NewECDHer(own)
+		if e3 != nil || e4 != nil {
+			continue
+		}
+		variants := []any{key.Ops{1}, []int{2}, []any{uint64(9)}, key.Ops{7}, []any{int64(8)}, key.Ops{7, 8}, key.Ops{5, 7}, "derive key", nil, 7, []any{"7"}, key.Ops{}, []any{}}
+		forms := []string{"go", "cbor"}
+		for vi, v := range variants {
+			for _, form := range forms {
+				remote := cloneKey(rp)
+				remote[iana.KeyParameterKeyOps] = v
+				if form == "cbor" {
+					b, err := key.MarshalCBOR(remote)
+					if err != nil {
+						continue
+					}
+					var r2 key.Key
+					if key.UnmarshalCBOR(b, &r2) != nil {
+						continue
+					}
+					remote = r2
+				}
+				cerr := ecdh.CheckKey(remote)
+				var derr error
+				var sec []byte
+				p, pm := catch(func() { sec, derr = ea.ECDH(remote) })
+				c.eval()
+				c.nontriv(fmt.Sprintf("remote-ops|%d|%d|%s|%v", crv, vi, form, derr == nil))
+				line := fmt.Sprintf("ops-remote|crv=%d|remote=%s (%s)", crv, describe(remote), form)
+				switch {
+				case p:
+					fail("ECDH panics on a remote key with a key_ops member", line, pm, "a secret or an error")
+				case cerr != nil && derr == nil:
+					fail("a shared secret is derived with a remote key whose key_ops the family refuses", line, fmt.Sprintf("secret %x", sec), "an error ("+cerr.Error()+")")
+				case cerr == nil && derr != nil:
+					fail("ECDH refuses a remote key whose key_ops is valid", line, derr, "a secret")
+				}
+			}
+		}
+	}
+	// derived public keys
+	for round := 0; round < c.n(2, 10); round++ {
+		for _, alg := range []int{-7, -35, -36, -8} {
+			for _, ops := range [][]int{{1}, {1, 2}, {2, 1}, {2}, {}} {
+				for rep := 0; rep < 3; rep++ {
+					k, err := genKeyFor(alg)
+					if err != nil {
+						continue
+					}
+					switch rep {
+					case 0:
+						k[iana.KeyParameterKeyOps] = key.Ops(ops)
+					case 1:
+						k[iana.KeyParameterKeyOps] = append([]int{}, ops...)
+					default:
+						var l []any
+						for _, o := range ops {
+							l = append(l, uint64(o))
+						}
+						if l == nil {
+							l = []any{}
+						}
+						k[iana.KeyParameterKeyOps] = l
+					}
+					before := qMap(k)
+					line := fmt.Sprintf("ops-derived|alg=%d|key_ops=%v (rep %d)", alg, ops, rep)
+					var pubs []key.Key
+					if alg == -8 {
+						if pk, err := ed25519.ToPublicKey(k); err == nil {
+							pubs = append(pubs, pk)
+						}
+					} else if pk, err := ecdsa.ToPublicKey(k); err == nil {
+						pubs = append(pubs, pk)
+					}
+					if v, err := k.Verifier(); err == nil {
+						pubs = append(pubs, v.Key())
+					}
+					c.eval()
+					c.nontriv(fmt.Sprintf("derived-ops|%d|%v|%d|%d", alg, ops, rep, len(pubs)))
+					for _, pk := range pubs {
+						if pk.Has(iana.EC2KeyParameterD) {
+							continue // (a verifier made from a private key reports that key: its list is the private key's)
+						}
+						for _, o := range pk.Ops() {
+							if o != iana.KeyOperationVerify {
+								fail("a public key derived from a private key lists an operation other than verify", line, describe(pk), "key_ops [verify] or none")
+							}
+						}
+						if raw, ok := pk[iana.KeyParameterKeyOps]; ok && pk.Ops() == nil {
+							fail("a public key derived from a private key carries an uninterpretable key_ops", line, raw, "key_ops [verify] or none")
+						}
+					}
+					if qMap(k) != before {
+						fail("deriving a public key changed the private key", line, qMap(k), before)
+					}
+				}
+			}
+		}
+		for _, crv := range []int{1, 2, 3, 4} {
+			for _, ops := range [][]int{{7}, {7, 8}, {8}, {}} {
+				k, err := ecdh.GenerateKey(crv)
+				if err != nil {
+					continue
+				}
+				k[iana.KeyParameterKeyOps] = key.Ops(ops)
+				pk, err := ecdh.ToPublicKey(k)
+				c.eval()
+				if err != nil {
+					continue
+				}
+				if len(pk.Ops()) != 0 {
+					fail("the public key derived from an ECDH private key lists operations", fmt.Sprintf("ops-derived|ecdh crv=%d|key_ops=%v", crv, ops), describe(pk), "an empty list or none")
+				}
+			}
+		}
+	}
 }
